@@ -1,0 +1,13 @@
+//go:build verif
+
+package engine
+
+import "github.com/openGemini/openGemini/lib/fragment"
+
+// Thin wrapper for the C20 verification harness (build tag verif). No behaviour.
+
+// VerifGetSegmentRanges is getSegmentRanges of ColumnStoreReader.initReadCursor: the fragment ranges the indexes kept are
+// turned into the segment ranges the file reader walks.
+func VerifGetSegmentRanges(fragmentRanges, allSegmentRanges fragment.FragmentRanges) (fragment.FragmentRanges, error) {
+	return getSegmentRanges(fragmentRanges, allSegmentRanges)
+}
